@@ -327,6 +327,9 @@ func (e *Exec) prepareCall(fr *Frame, c *ssa.CallCommon) (Value, []Value) {
 		recv := e.get(fr, c.Value)
 		iv, ok := recv.(IfaceV)
 		if !ok {
+			if po, isP := recv.(*Poison); isP {
+				panic(unsupported("invoke " + c.Method.Name() + " on poisoned value: " + po.Why + " at " + e.stack(fr)))
+			}
 			panic(unsupported(fmt.Sprintf("invoke on %T", recv)))
 		}
 		if iv.T == nil {
